@@ -527,7 +527,12 @@ func (w *world) doOp(ctx context.Context, op string, g *imgen.Graph) {
 	}
 }
 
-func runCase(c Case, res *lib.Result) string {
+func runCase(c Case, res *lib.Result) (ret string) {
+	defer res.Recover(c)
+	return runCaseRaw(c, res)
+}
+
+func runCaseRaw(c Case, res *lib.Result) string {
 	w, g := build(c)
 	ctx, cancel := context.WithTimeout(context.Background(), 30*time.Second)
 	defer cancel()
